@@ -38,6 +38,10 @@ class Inconclusive(Exception):
     pass
 
 
+OTHER_FS_TMP = '/var/tmp/skaverif-tmp-%d' % os.getuid()
+os.makedirs(OTHER_FS_TMP, exist_ok=True)
+
+
 class Ctx:
     """What a case needs: binaries, a private scratch directory and process helpers."""
 
@@ -62,6 +66,9 @@ class Ctx:
         e['RUST_BACKTRACE'] = '0'
         # the size of the default thread pool is an accident of the environment: no result may depend on it
         e['RAYON_NUM_THREADS'] = str([1, 2, 3, 5, 8][self.calls % 5])
+        # the directory for temporary files lies on another file system than the working directory in every second call
+        if self.calls % 2:
+            e['TMPDIR'] = OTHER_FS_TMP
         if env:
             e.update(env)
         try:
@@ -131,8 +138,8 @@ def _init_worker(modname, bins, wroot):
     _G['mod'] = importlib.import_module(modname)
     _G['bins'] = bins
     # working directories with and without dots, dashes and non-ASCII characters in their names: no result may depend on
-    # what the directory part of a path looks like (white space is left out: it separates the columns of file lists)
-    _G['dir'] = tempfile.mkdtemp(prefix='w', suffix=['', '.d', '.v2-\u00e9', '-x.y.z'][os.getpid() % 4], dir=wroot)
+    # what the directory part of a path looks like (commas included; white space is left out: it separates the columns of file lists)
+    _G['dir'] = tempfile.mkdtemp(prefix='w', suffix=['', '.d', '.v2-\u00e9', '-x.y.z', ',c', '.k,2'][os.getpid() % 6], dir=wroot)
 
 
 def _run_one(desc):
